@@ -130,7 +130,12 @@ func C18_BigIO[T signal.SignalTypes]() {
 	for c := range str {
 		str[c] = make([]T, K)
 	}
+	p := signal.PoolAlloc[T](signal.Allocator{Channels: C, Length: K / 2, Capacity: K})
+	p.Put(p.Get()) // warm
 	got := vf.Allocs(func() {
+		pb := p.Get()
+		pb.AppendSample(in[0])
+		p.Put(pb)
 		signal.Write(in, b)
 		signal.Read(b, in)
 		signal.WriteStriped(str, b)
